@@ -90,6 +90,15 @@ func checkEnumMembers(w *World, r *Result) {
 				return true
 			})
 		}
+		if be, ok := c.expr.(*ast.BinaryExpr); ok && (be.Op == token.NEQ || be.Op == token.EQL) {
+			l, rr := es(be.X), es(be.Y)
+			if (strings.HasSuffix(l, ".Obj().Pkg()") && strings.HasSuffix(rr, ".Types")) || (strings.HasSuffix(rr, ".Obj().Pkg()") && strings.HasSuffix(l, ".Types")) {
+				lbl = "foreignType"
+				if be.Op == token.EQL {
+					lbl = "ownType"
+				}
+			}
+		}
 		if call, ok := c.expr.(*ast.CallExpr); ok && fullName(calleeOf(info, call)) == "strings.Contains" && len(call.Args) == 2 {
 			if cst, ok := info.Uses[identOf(call.Args[1])].(*types.Const); ok && cst.Name() == "IgnoreDeclComment" {
 				lbl = "optOut"
@@ -104,10 +113,11 @@ func checkEnumMembers(w *World, r *Result) {
 		}
 		got = append(got, lbl)
 	}
-	want := []string{"isConst", "isNamed", "!optOut"}
-	r.cond(setEq(uniqStr(got), want), "AGR-C10m", name, "membership filters", w.Pos(app.Pos()),
-		"a constant becomes a member exactly when it is a constant, its type is a named type, and its comment does not opt out",
-		"the member append is guarded by {"+strings.Join(got, ", ")+"} instead of exactly {isConst, isNamed, !optOut}: constants are wrongly kept or dropped (e.g. an opt-out honoured only before the enum exists)")
+	want := []string{"isConst", "isNamed", "!foreignType", "!optOut"}
+	wantAlt := []string{"isConst", "isNamed", "ownType", "!optOut"}
+	r.cond(setEq(uniqStr(got), want) || setEq(uniqStr(got), wantAlt), "AGR-C10m", name, "membership filters", w.Pos(app.Pos()),
+		"a constant becomes a member exactly when it is a constant, its type is a named type declared in this package, and its comment does not opt out",
+		"the member append is guarded by {"+strings.Join(got, ", ")+"} instead of exactly {isConst, isNamed, type declared in this package, !optOut}: constants are wrongly kept or dropped (e.g. an opt-out honoured only before the enum exists)")
 	// the appended member pairs the constant with its own comment
 	call, _ := app.Rhs[0].(*ast.CallExpr)
 	okPair := false
